@@ -160,7 +160,9 @@ CLAIMS["C08"] = claim("lean-model (Linz checker, slot-heap model) + harness linz
     "takes effect at one instant for EVERY interleaving of other operations' lock sections (C08_read_linearizes, induction over the "
     "interleaving); and the linearization-point theorem: every execution in which each operation acts on the slot in ONE section inside its "
     "invocation/response interval (any goroutines, any interleaving, batch operations acting at one instant) has a linearizable history "
-    "(C08_linearization_points, C08_single_section_ops_linearizable). Implementation side: 2-8 free-running goroutines with random op mixes over plain and xxhash64-colliding keys on all "
+    "(C08_linearization_points, C08_single_section_ops_linearizable); and completeness of the checker's search (C08_search_complete, "
+    "C08_notlin_verdict_sound: if any real-time respecting order replays on the model the bounded search returns a witness or 'budget exhausted', "
+    "never 'not found' - so both verdicts the correspondence run acts on are backed by a theorem). Implementation side: 2-8 free-running goroutines with random op mixes over plain and xxhash64-colliding keys on all "
     "backends and strategies, every slot history judged by the Lean checker; concurrent Walk monitor; a directed cleanup/rewrite stress.",
     "Partial: mutual exclusion of sync.RWMutex / linearizability of sync.Map / Go map iteration guarantees are assumed; schedules are sampled, not enumerated.",
     "Lean 4 proof (checker soundness, linearization-point theorem, induction over lock-section interleavings) + statistical correspondence", "DESIGN.md §6 C08")
